@@ -392,6 +392,9 @@ let dispatch (req : string list) (impl : string list) : string * string =
     let z = Zenc.zerv { Zenc.f = Array.of_list req; Zenc.i = 1 } in
     if schema_validate z.z_schema then ("OK", if impl = [ "OK" ] then "OK" else "BAD:valid-schema-rejected")
     else ("REJECT", if impl = [ "REJECT" ] then "OK" else "BAD:invalid-schema-accepted")
+  | [ "RONSTR"; t ] ->
+    let reply = match ron_string_document (str_of_field t) with Some v -> "OK " ^ field_of_str v | None -> "ERR" in
+    (reply, "NA")
   | [ "RONP"; _ ] ->
     (* oracle only: whatever document the implementation accepts decodes to an object whose schema satisfies the placement rules *)
     (match impl with
